@@ -122,7 +122,7 @@ func existingValidators(st *state.StateDB) []*state.Validator {
 	return st.GetValidatorsForUpdate()
 }
 
-func acctKey(a common.Address) string { return "acct:" + nm(a) }
+func acctKey(a common.Address) string  { return "acct:" + nm(a) }
 func valKeyOf(a common.Address) string { return "val:" + nm(a) }
 
 // Step generates one mutation, applies it and returns its abstract name (for fingerprints).
@@ -338,11 +338,12 @@ func (m *Mutator) Gen(st *state.StateDB) *Op {
 
 const nBigCodes = 6
 
-// genDeployBatch imitates a factory transaction (evm.go:338-380 several times): up to five
+// genDeployBatch imitates a factory transaction (evm.go:338-380 several times): five or six
 // accounts are created with distinct 24 KiB codes, so that the block's TrieDB().Commit needs
-// more than one 100 KiB disk batch.
+// more than one 100 KiB disk batch (5 x 24 KiB is well above the batch size, so whether an
+// intermediate batch is written does not depend on the order in which nodes are visited).
 func (m *Mutator) genDeployBatch() *Op {
-	n := 4 + m.r.C.Intn("deploy-n", 2)
+	n := 5 + m.r.C.Intn("deploy-n", 2)
 	var foot []string
 	for i := 0; i < n; i++ {
 		foot = append(foot, acctKey(accounts[i]))
